@@ -18,6 +18,7 @@ __all__ = [
 
 not_loaded = object()
 yaml_default_loader = None
+yaml_default_dumper = None
 
 
 def load_basic(value):
@@ -217,10 +218,31 @@ dump_json_kwargs = {
 }
 
 
+def get_yaml_default_dumper():
+    global yaml_default_dumper
+    if yaml_default_dumper:
+        return yaml_default_dumper
+
+    import yaml
+
+    class DefaultDumper(yaml.SafeDumper):
+        pass
+
+    # a str that the loader resolves as float must not be dumped as a plain scalar
+    float_tag = "tag:yaml.org,2002:float"
+    for first, resolvers in get_yaml_default_loader().yaml_implicit_resolvers.items():
+        for tag, regexp in resolvers:
+            if tag == float_tag:
+                DefaultDumper.add_implicit_resolver(tag, regexp, [first])
+
+    yaml_default_dumper = DefaultDumper
+    return yaml_default_dumper
+
+
 def yaml_dump(data):
     import yaml
 
-    return yaml.safe_dump(data, **dump_yaml_kwargs)
+    return yaml.dump(data, Dumper=get_yaml_default_dumper(), **dump_yaml_kwargs)
 
 
 def yaml_comments_dump(data, parser):
